@@ -686,10 +686,17 @@ impl<W: Word, B: AsRef<[W]> + AsMut<[W]>> BitFieldSliceMut<W> for BitFieldVec<W,
         }
         let bit_width = self.bit_width();
         if bit_width == 0 {
+            // All values are zero and nothing can be stored, but the
+            // function must still be applied once per element
+            for _ in 0..self.len() {
+                f(W::ZERO);
+            }
             return;
         }
         let mask = self.mask();
-        let number_of_words: usize = self.bits.as_ref().len();
+        // Only the words containing elements are processed: the backend might
+        // be longer, and its content beyond the elements must not be touched
+        let number_of_words: usize = (self.len() * bit_width).div_ceil(W::BITS);
         let last_word_idx = number_of_words.saturating_sub(1);
 
         let mut write_buffer: W = W::ZERO;
@@ -719,7 +726,11 @@ impl<W: Word, B: AsRef<[W]> + AsMut<[W]>> BitFieldSliceMut<W> for BitFieldVec<W,
 
                     let value = read_buffer & mask;
                     // throw away the bits we just read
-                    read_buffer >>= bit_width;
+                    read_buffer = if bit_width == W::BITS {
+                        W::ZERO
+                    } else {
+                        read_buffer >> bit_width
+                    };
                     // apply user func
                     let new_value = f(value);
                     // put the new value in the write buffer
@@ -739,7 +750,11 @@ impl<W: Word, B: AsRef<[W]> + AsMut<[W]>> BitFieldSliceMut<W> for BitFieldVec<W,
             while bits_in_buffer < buffer_limit {
                 let value = read_buffer & mask;
                 // throw away the bits we just read
-                read_buffer >>= bit_width;
+                read_buffer = if bit_width == W::BITS {
+                    W::ZERO
+                } else {
+                    read_buffer >> bit_width
+                };
                 // apply user func
                 let new_value = f(value);
                 // put the new value in the write buffer
@@ -748,6 +763,10 @@ impl<W: Word, B: AsRef<[W]> + AsMut<[W]>> BitFieldSliceMut<W> for BitFieldVec<W,
                 bits_in_buffer += bit_width;
             }
 
+            // keep the bits of the last word that lie beyond the elements
+            if bits_in_buffer < W::BITS {
+                write_buffer |= read_buffer << bits_in_buffer;
+            }
             *self.bits.as_mut().get_unchecked_mut(last_word_idx) = write_buffer;
             return;
         }
@@ -823,6 +842,10 @@ impl<W: Word, B: AsRef<[W]> + AsMut<[W]>> BitFieldSliceMut<W> for BitFieldVec<W,
             offset += bit_width;
         }
 
+        // keep the bits of the last word that lie beyond the elements
+        if offset < W::BITS {
+            write_buffer |= read_buffer & (W::MAX << offset);
+        }
         *self.bits.as_mut().get_unchecked_mut(last_word_idx) = write_buffer;
     }
 
